@@ -103,11 +103,9 @@ class ZConfigParser:
         except ZConfig.ConfigurationError as e:
             self.error(e.message)
 
-        if isempty:
-            self.context.endSection(section, type_, name, newsect)
-            return section
-
         self.stack.append((type_, name, section))
+        if isempty:
+            return self.end_section(newsect, type_)
         return newsect
 
     def end_section(self, section, rest):
